@@ -96,8 +96,7 @@ PROPS = {
              "non-trivial = the scheduler had a real choice",
         assumptions=["the green tree, resolver and per-node data are owned by red blocks (plain Rust ownership): their release is implied by the block being dropped exactly once",
                      "counter arithmetic is modelled on Int without wrap-around; the u32 counter wrapping at 2^32 clones is outside the property's histories"],
-        not_yet_proved=["blocks_freed_once as a theorem about the recursive teardown (the model's teardown is one atomic step that frees all installed blocks; the per-block "
-                        "exactly-once is checked by the instrumentation oracle)"],
+        not_yet_proved=[],   # the recursive teardown is Model/Teardown (teardown_frees_each_once / teardown_safe / teardown_counter)
     ),
     "C07": dict(
         extra_modules=["CstModel.Proofs.MemModel", "CstModel.Proofs.MemSlots"],
